@@ -129,9 +129,12 @@ func c14Families() []c14Family {
 		{set: []string{"a"}, alpha: []string{"a", "b", ",", " ", "\t", "A"}},
 		{set: []string{"a", "ab", "b"}, alpha: []string{"a", "b", "c", ",", " ", "\t", "A"}},
 		{set: []string{"b", "abc"}, alpha: []string{"a", "b", "c", ",", " ", "\t"}},
+		{set: []string{"a_b", "a.b", "a~", "a"}, alpha: []string{"a", "b", "_", ".", "~", ",", " ", "\t"}},
 		{set: []string{"x-a", "x-b"}, alpha: []string{"x-a", "x-b", "x-", "x-ab", "x", ",", " ", "\t"}, long: true},
 		{set: []string{"accept", "authorization", "content-type", "x-api-key", "x-requested-with"},
 			alpha: []string{"accept", "authorization", "content-type", "x-api-key", "x-requested-with", "content-typ", "x-api-keys", "Accept", ",", " ", "\t"}, long: true},
+		{set: []string{"if-none-match", "x!#$%&'*+^`|~", "x-api_key.v2", "x-b3-traceid", "x-requested-with", "x-trace~id", "content-type", "x-a", "x-b", "x-c", "x-d", "x-e"},
+			alpha: []string{"content-type", "if-none-match", "x!#$%&'*+^`|~", "x-a", "x-api_key.v2", "x-b3-traceid", "x-e", "x-trace~id", "x-trace~i", "X-A", ",", " "}, long: true},
 	}
 }
 
